@@ -123,8 +123,9 @@ type World struct {
 	holdReply bool
 	// versions advertised to DiscoverVersions
 	Versions []kmip.ProtocolVersion
-	// EchoWrong, when set, makes the server answer with this identifier (harness self-test only)
-	Events []string
+	// ReplyDelay, when set, delays each reply by the returned duration (concurrent stress runs)
+	ReplyDelay func() time.Duration
+	Events     []string
 }
 
 func NewWorld(plans []ConnPlan) *World {
@@ -502,6 +503,17 @@ func (c *Conn) Write(b []byte) (int, error) {
 			w.holdReply = false
 			c.heldReply = r
 			w.event("conn %d reply %d held", c.d, j)
+		} else if w.ReplyDelay != nil {
+			if d := w.ReplyDelay(); d > 0 {
+				time.AfterFunc(d, func() {
+					w.mu.Lock()
+					c.deliver(r)
+					w.cond.Broadcast()
+					w.mu.Unlock()
+				})
+			} else {
+				c.deliver(r)
+			}
 		} else {
 			c.deliver(r)
 		}
